@@ -52,7 +52,7 @@ def run(ctx, pid, lastcast=False, mask=True):
     if mask:
         for c in F.all_reindex():
             c.prefix = pid + c.prefix[3:]
-            ex, obs = add_to_ctx(ctx, c, {})
+            ex, obs = add_to_ctx(ctx, c, F.reindex_callees())
             n += len(obs)
     if lastcast:
         repo = os.environ.get("VERIF_REPO", REPO)
@@ -61,4 +61,4 @@ def run(ctx, pid, lastcast=False, mask=True):
                                         formula="the last statement before the only return of _finalize_results casts the result to agg.dtype['final'] (every plan ends in this function)", detail=text,
                                         model=None if ok else {"last_statement": text})])
         n += 1
-    return f"_finalize_results: {n} obligations (count mask with the user's fill verbatim for every fill value, final reindex iff needed, last cast; reindex_numpy: present labels keep their value, absent labels get the fill, ValueError only without a fill)."
+    return f"_finalize_results: {n} obligations (count mask with the user's fill verbatim for every fill value, final reindex iff needed, last cast; reindex_numpy and reindex_: present labels keep their value, absent labels get the fill, ValueError only without a fill)."
